@@ -423,11 +423,22 @@ package iscp
 //@   ensures (result == nil) == handed
 //@   assert send dpgCh: v != nil && v.DataID == dataID && v.DataPoints == dps
 
+// Ownership of the buffered slices (C01: a buffered point cannot be changed or lost because the
+// caller reuses its slice). `owned(a)` is a ghost predicate on backing arrays: every array the
+// flush loop allocates is owned (ghost definition at make / growing append), every slice in the
+// send buffer has an owned array (monitor invariant), and the slices that arrive from callers
+// through dpgCh are not owned (assumption: the library never hands one of its buffer arrays to a
+// caller - State() deep-copies, a cut chunk's arrays have left the buffer).
+//@ ghost func owned(int) bool
+//@ lockinv[C01] Upstream.mu: forall(k, message.DataID, imp(has(self.sendBuffer, k), owned(arrayof(self.sendBuffer[k])) || cap(self.sendBuffer[k]) == 0))
+//@ chanassume *DataPointGroup: v == nil || !owned(arrayof(v.DataPoints)) || cap(v.DataPoints) == 0
+
 // flushLoop, per iteration: the write arm appends under the lock and then cuts a chunk iff the
 // policy says so for the buffered payload size (as uint32); the other arms may always cut.
 //@ func (*Upstream).flushLoop
 //@   props C20 C01
 //@   requires ctx != nil
+//@   allocassume owned(a)
 //@   ghostvar owe bool = false
 //@   ghostvar mayFlush bool = true
 //@   after recv dpgCh: mayFlush = false
